@@ -1,6 +1,6 @@
 (* C15 runner.  Evaluates the extracted predicate Hooks.holds_C15 on every crash-point
    observation and "the hook returned" on every environment case, classifies failures by the
-   extracted KF classes (Hooks.kf_C15_1 / _3 / _4 on the unit / inputs, Sweep.kf_C15_2 on the sweep
+   extracted KF classes (Hooks.kf_C15_3 / _4 on the unit / inputs, Sweep.kf_C15_2 on the sweep
    inputs the harness printed - never on error strings), and cross-checks the regenerated table:
    Hooks.table_says_wrapped unit must agree with where the harness saw the unit's store accesses
    (inside an ApplyFuncIfNoError instance or not), and the sweep model must predict the slice panic. *)
@@ -54,8 +54,7 @@ let run (path : string) =
               | Some (cap, counter, off, batch, _) when Sweep.kf_C15_2 cap counter off batch -> "kf_C15_2"
               | _ ->
                 (* the panic arose inside the per-item function of a unit the table lists as unwrapped *)
-                if at <> "-" && not (Hooks.table_says_wrapped (coq_string at)) && Hooks.kf_C15_1 (coq_string at) then "kf_C15_1"
-                else if at <> "-" && not (Hooks.table_says_wrapped (coq_string at)) && Hooks.kf_C15_3 (coq_string at) then "kf_C15_3"
+                if at <> "-" && not (Hooks.table_says_wrapped (coq_string at)) && Hooks.kf_C15_3 (coq_string at) then "kf_C15_3"
                 else "none") in
           predfail ~case:!case ~step:!steps ~pred:"hook_returns" ~kf ~detail:(name ^ "_panicked_in_" ^ at)
         end
@@ -73,7 +72,7 @@ let run (path : string) =
         if says <> seen then
           mismatch ~case:!case ~step:!steps ~field:("wrapped[" ^ unit ^ "]") ~model:(tok_of_bool says) ~impl:(tok_of_bool seen);
         if not (Hooks.holds_C15 (bool_of_tok returned) (z_of_string diff) (bool_of_tok others)) then begin
-          let kf = if Hooks.kf_C15_1 u then "kf_C15_1" else if Hooks.kf_C15_3 u then "kf_C15_3" else "none" in
+          let kf = if Hooks.kf_C15_3 u then "kf_C15_3" else "none" in
           predfail ~case:!case ~step:!steps ~pred:"holds_C15" ~kf
             ~detail:(Printf.sprintf "unit=%s_k=%s_returned=%s_diff=%s_others=%s" unit k returned diff others)
         end
